@@ -23,7 +23,7 @@ from ..model import AnalysisError
 from ..x_syncnorm import normalized
 
 NORM_MODULES = ("tornado/locks.py", "tornado/queues.py", "tornado/gen.py", "tornado/concurrent.py", "tornado/ioloop.py", "tornado/platform/asyncio.py")
-from ..x_sync import in_cycle, check_none_tests, own_walk, guard_models, aug_delta, node_counts, method_call_on, container_uses, exit_states, own_find, own_settle_sites
+from ..x_sync import check_outcome_reads, in_cycle, check_none_tests, own_walk, guard_models, aug_delta, node_counts, method_call_on, container_uses, exit_states, own_find, own_settle_sites
 from .c34 import _while_to_if
 from .c33 import check_timeout_cb, _is_grant, _grant_target, _grant_value, _drop_done_test, _rename_attr, _cmp_op
 
@@ -661,6 +661,7 @@ def run(ck):
     ck.rule("C35.get", "get: fresh future; get_nowait under a QueueEmpty handler; success -> completed with the item; empty -> queued at the tail with the timeout")
     ck.rule("C35.layout", "the (item, future) layout of putter entries agrees between put (writer), get_nowait and _consume_expired (readers)")
     ck.rule("C35.none-test", "_set_timeout compares the timeout with None by identity (timeout=0 is a legal, immediate timeout)")
+    ck.rule("C35.cancel-aware", "any result()/exception() read of a getter/putter future in queues.py is cancel-aware (a cancelled waiter must not raise CancelledError out of an unrelated put/get)")
     ck.rule("C35.timeout", "_set_timeout arms one timer iff a timeout is given; its callback fails a live future with TimeoutError exactly once and does nothing else")
     ck.rule("C35.waiter-fifo", "the getter/putter queues are modified only by append and popleft; only _consume_expired peeks at the head")
     ck.rule("C35.settle", "every settle of a getter/putter future is on a fresh future, under not done(), or on the head popped after a dominating _consume_expired() with no suspension in between")
@@ -673,6 +674,9 @@ def run(ck):
     check_nowait(ck)
     check_blocking(ck)
     check_waiter_fifo(ck)
+    for fi in list(ck.repo.module(Q).funcs.values()):
+        if isinstance(fi.node, q.FuncNode):
+            check_outcome_reads(ck, "C35.cancel-aware", fi)
 
 
 # ---------------------------------------------------------------------------
@@ -703,6 +707,8 @@ def _get_before_put(root):
 
 
 MUTANTS = [
+    ("_consume_expired reads .exception() of purged waiters (seeded C35-adv3)", _in("Queue._consume_expired", replace_stmt(lambda st: isinstance(st, ast.Expr) and "_getters.popleft" in ast.unparse(st), lambda st: [ast.Expr(value=parse_expr("self._getters.popleft().exception()"))])), "C35.cancel-aware"),
+    ("get_nowait re-raises the woken putter's outcome (putter.result() unguarded)", _in("Queue.get_nowait", replace_stmt(lambda st: isinstance(st, ast.Expr) and "future_set_result_unless_cancelled" in ast.unparse(st), lambda st: [st, parse_stmt("putter.result()")])), "C35.cancel-aware"),
     ("_consume_expired removes only one expired waiter per queue (while -> if)", _in("Queue._consume_expired", lambda root: _while_to_if(root)), "C35.expired"),
     ("Queue(maxsize=0) rejected (maxsize <= 0)", _in("Queue.__init__", _cmp_op(ast.Lt, ast.LtE)), "C35.full"),
     ("put_nowait hands the item to the getter and counts it inline but never clears the finished event (seeded C35-adv1)", _in("Queue.put_nowait", lambda root: _inline_handoff(root, clear=False)), ("C35.put-nowait", "C35.accounting")),
